@@ -38,6 +38,7 @@ type c08Run struct {
 	l2block   uint64
 	initial   map[string]*big.Int
 	nClaimOK  int
+	authExec  bool // the module authority is a listed executor: relays can be wrapped into ExecuteMessages
 	blocked   bool // the next-in-order relay was rejected: the bridge's deposit path is stuck; no retries
 	steps     int
 }
@@ -144,7 +145,16 @@ func (y *c08Run) stepRelay(k int) []WEvent {
 	ev := y.events[k]
 	op := y.relayOpFor(ev, sc.SenderString(0))
 	sc.register(op.Sender, op.To)
-	res := sc.Case.Do(op)
+	var res ExecResult
+	if y.authExec && y.r.Chance(20) {
+		// the admin wraps the relay, signed by the module authority (a listed executor), into ExecuteMessages
+		op.Sender = sc.Env.Auth
+		admin := y.l2Admin()
+		res = sc.Case.Do(L2Op{Kind: "exec", Sender: admin, Inner: []L2Op{op}})
+		y.rep.Hist("relay-in-batch:" + okStr(res.OK))
+	} else {
+		res = sc.Case.Do(op)
+	}
 	y.rep.Hist("relay:" + okStr(res.OK))
 	var out []WEvent
 	if res.OK {
@@ -216,6 +226,68 @@ func (y *c08Run) stepWithdraw() {
 		y.rejected++
 	}
 	y.check("L2 withdrawal")
+}
+
+func (y *c08Run) l2Admin() string {
+	e2 := y.sc.Env
+	ps, _ := e2.K.GetParams(e2.Ctx)
+	y.sc.register(ps.Admin, e2.Auth)
+	return ps.Admin
+}
+
+// the authority becomes a listed executor (MsgUpdateParams by the authority itself)
+func (y *c08Run) makeAuthorityExecutor() {
+	sc := y.sc
+	e2 := sc.Env
+	ps, _ := e2.K.GetParams(e2.Ctx)
+	np := &L2Params{Admin: ps.Admin, Execs: append(append([]string{}, ps.BridgeExecutors...), e2.Auth), MaxV: uint64(ps.MaxValidators),
+		Hist: uint64(ps.HistoricalEntries), MinGas: sc.Case.Params.MinGas, Whitelist: []string{}, HookGas: ps.HookMaxGas}
+	sc.register(e2.Auth)
+	if res := sc.Case.Do(L2Op{Kind: "params", Sender: e2.Auth, Params: np}); res.OK {
+		y.authExec = true
+	}
+	y.check("params update")
+}
+
+// ExecuteMessages batches of the admin: a withdrawal by the module authority (funded by a plain
+// transfer first), a neutral params update, or both in one batch
+func (y *c08Run) stepBatch() {
+	r, sc := y.r, y.sc
+	e2 := sc.Env
+	admin := y.l2Admin()
+	di := r.Intn(len(y.l2d))
+	var inner []L2Op
+	var wd *L2Op
+	if r.Chance(70) {
+		from := uint64(1 + r.Intn(5))
+		amt := big.NewInt(int64(1 + r.Intn(300)))
+		sc.Case.Do(L2Op{Kind: "send", FromID: from, ToID: ModOpchild, Denom: y.l2d[di], Amt: amt})
+		y.check("L2 transfer to the module account")
+		to := y.e1.User(uint64(1 + r.Intn(7))).Str
+		w := L2Op{Kind: "withdraw", Sender: e2.Auth, To: to, Denom: y.l2d[di], Amt: big.NewInt(int64(1 + r.Intn(300)))}
+		wd = &w
+		inner = append(inner, w)
+	}
+	if len(inner) == 0 || r.Chance(40) {
+		ps, _ := e2.K.GetParams(e2.Ctx)
+		np := &L2Params{Admin: ps.Admin, Execs: append([]string{}, ps.BridgeExecutors...), MaxV: uint64(ps.MaxValidators),
+			Hist: uint64(ps.HistoricalEntries), MinGas: sc.Case.Params.MinGas, Whitelist: []string{}, HookGas: ps.HookMaxGas}
+		inner = append(inner, L2Op{Kind: "params", Sender: e2.Auth, Params: np})
+	}
+	res := sc.Case.Do(L2Op{Kind: "exec", Sender: admin, Inner: inner})
+	y.rep.Hist("batch:" + okStr(res.OK))
+	if res.OK {
+		ws, _ := parseL2Events(res.Events)
+		if wd != nil && len(ws) != 1 {
+			y.viol(len(sc.Case.Ops)-1, "C08:batch-withdrawal-event", fmt.Sprintf("a batch with one withdrawal emitted %d withdrawal events", len(ws)))
+		}
+		for _, w := range ws {
+			y.record(w, false, e2.Auth, wd.To, wd.Denom, y.bases[di], wd.Amt)
+		}
+	} else {
+		y.rejected++
+	}
+	y.check("ExecuteMessages batch")
 }
 
 func (y *c08Run) stepTransfer() {
@@ -506,9 +578,12 @@ func genC08(seed uint64, tier string, outdir string) *Report {
 		hookCase := k >= nModel
 		y := newC08Run(rep, seed*15485863+uint64(k), k+1, 2+k%2)
 		r := y.r
+		if k%2 == 0 {
+			y.makeAuthorityExecutor()
+		}
 		nSteps := 200 + r.Intn(201)
 		for i := 0; i < nSteps; i++ {
-			switch r.Weighted([]int{22, 22, 14, 5, 4, 6, 3, 8, 12, 4, 3, 4}) {
+			switch r.Weighted([]int{22, 22, 14, 5, 4, 6, 3, 8, 12, 4, 3, 4, 4}) {
 			case 0:
 				amt := c04Amount(r)
 				if r.Chance(85) {
@@ -552,6 +627,8 @@ func genC08(seed uint64, tier string, outdir string) *Report {
 				y.stepAdmin()
 			case 11:
 				y.stepOther()
+			case 12:
+				y.stepBatch()
 			}
 		}
 		y.drain()
